@@ -83,6 +83,23 @@ Proof.
   - rewrite api_resps_app. cbn [api_resps]. rewrite H, H0. reflexivity.
 Qed.
 
+(* documented vs enforced preconditions: they differ in exactly one place *)
+Lemma api_documented_pre_refuted :
+  exists s c k, documented_pre s c k = true /\ snd (api_step s c k) = RErr.
+Proof.
+  exists {| ph := Sleeping; fin := false; eres := 0%Z; conf := 0%N; pend := 0%N |}, FromOs, CFinalize.
+  split; reflexivity.
+Qed.
+
+Lemma api_documented_pre_partial s c k :
+  (documented_pre s c k = false -> snd (api_step s c k) = RErr) /\
+  (documented_pre s c k = true -> ~ (k = CFinalize /\ ph s = Sleeping) -> snd (api_step s c k) <> RErr).
+Proof.
+  unfold api_step, documented_pre; destruct k, c; destruct s as [p f e cf pd]; destruct p, f; cbn;
+    try (destruct (pd =? 0)%N eqn:?; cbn); split; intros; try congruence; try discriminate;
+    exfalso; apply H0; split; reflexivity.
+Qed.
+
 (* ================================================================== Part 2: counting *)
 Definition b2n (b : bool) : nat := if b then 1 else 0.
 
